@@ -10,7 +10,7 @@ FILES = ['src/urcu-call-rcu-impl.h', 'src/urcu-bp.c', 'src/urcu.c', 'src/rculfha
 SRCS = [REPO + s for s in ('/src/wfcqueue.c', '/src/wfstack.c', '/src/compat_futex.c', '/src/compat_arch.c')]
 TRUSTED = ['Coq 8.16.1 kernel; no axioms', 'extraction: ExtrOcamlBasic only; ocaml/bparena_driver.ml, ocaml/fork_driver.ml', 'projection of scen_callrcu traces onto Fork.choice: tools/props/C16.py project_fork (trusted)', 'harness: seqdiff/bparena.c (prune operation), seqdiff/fork_callrcu.c, seqdiff/fork_bp.c (real fork(), real threads)',
            'modelled: helpers as phases idle / spliced / invoking / paused with queue, private batch and registration flag; the kernel\'s fork semantics (copy of memory, only the calling thread survives) and glibc\'s atfork/malloc '
-           'interplay are not modelled; the hash table across fork: creation / use / worker-side destruction of an auto-resizing table in parent and child (seqdiff/fork_lfht.c); the fork bracket taken with the worker held inside a resize, in the first process and in a fork child (second generation)']
+           'interplay are not modelled; the hash table across fork: creation / use / worker-side destruction of an auto-resizing table in parent and child (seqdiff/fork_lfht.c); the fork bracket taken with the worker held inside a resize, in the first process and in a fork child (second generation); tables of two flavors (memb + bp) in one process, nested handlers of both flavors']
 FPROGS = ['C0C1FC2', 'C0HC1C2FC3', 'c0C2FC4/(r)', 'HC0C1FC2FC3', 'C0FC1/(r)(q)', 'Hc0C2C3FC5F']
 def project_fork(raw):
     """projection of a scen_callrcu trace with F operations onto Fork.choice (see ocaml/fork_driver.ml)"""
@@ -156,13 +156,13 @@ def run(ctx):
     if ximpl: X.run_wq(ctx, ximpl, build_model_driver(ctx, 'wqpause', 'ExtractWqPause.v', 'wqpause_driver.ml'))
     probes = [('fork_callrcu', 'seqdiff/fork_callrcu.c', ['3' if ctx.quick() else '20', '0']), ('fork_callrcu', 'seqdiff/fork_callrcu.c', ['3' if ctx.quick() else '20', '1']),
               ('fork_bp', 'seqdiff/fork_bp.c', ['4' if ctx.quick() else '24']),
-              ('fork_lfht', 'seqdiff/fork_lfht.c', ['3' if ctx.quick() else '15', '0']), ('fork_lfht', 'seqdiff/fork_lfht.c', ['3' if ctx.quick() else '15', '1'])]
+              ('fork_lfht', 'seqdiff/fork_lfht.c', ['3' if ctx.quick() else '15', '0']), ('fork_lfht', 'seqdiff/fork_lfht.c', ['3' if ctx.quick() else '15', '1']), ('fork_lfht', 'seqdiff/fork_lfht.c', ['3' if ctx.quick() else '15', '2'])]
     LFHT = [REPO + x for x in ('/src/rculfhash.c', '/src/rculfhash-mm-order.c', '/src/rculfhash-mm-chunk.c', '/src/rculfhash-mm-mmap.c', '/src/workqueue.c')]
     built = {}
     for name, src, args in probes:
         if name not in built:
             exe = os.path.join(BUILD, name)
-            rc, so, se = sh(['gcc', '-O1', '-g', '-w', '-include', REPO + '/include/config.h', '-I' + REPO + '/include', '-I' + REPO + '/src', os.path.join(HARN, src)] + SRCS + (LFHT if name == 'fork_lfht' else []) + ['-o', exe, '-lpthread'])
+            rc, so, se = sh(['gcc', '-O1', '-g', '-w', '-include', REPO + '/include/config.h', '-I' + REPO + '/include', '-I' + REPO + '/src', os.path.join(HARN, src)] + SRCS + ((LFHT + [os.path.join(HARN, 'seqdiff/fork_lfht_bp.c'), REPO + '/src/urcu-bp.c']) if name == 'fork_lfht' else []) + ['-o', exe, '-lpthread'])
             built[name] = None if rc else exe
             if rc: ctx.fail('harness', 'build of ' + src, se[-600:])
         exe = built[name]
